@@ -267,6 +267,16 @@ def oracle_plan(shape):
     if r in ('none',) or r.startswith('crash'):
         return None
     pre = shape['preimage'] or {}
+    kind = shape['kind']
+    if (shape.get('msgid_plural') is not None and not shape['fuzzy'] and shape['encoding'] and not shape['template']
+            and parse_or_none(kind, shape['msgid']) is not None and parse_or_none(kind, shape['msgid_plural']) is not None
+            and pre and any(shape.get('msgstr_plural', {}).values())):
+        # "the same holds between each msgstr[i] and msgid_plural": every form that is a valid format string and that the plural
+        # expression can select is compared with its source, whatever the other forms look like
+        expected = sorted(i for i, s in shape['msgstr_plural'].items() if parse_or_none(kind, s) is not None and i in pre)
+        got = sorted(int(x) for x in re.findall(r'-> msgstr\[(\d+)\]', r))
+        if expected != got:
+            return 'forms compared with their source: %r, forms that are valid format strings and selectable: %r' % (got, expected)
     for call in r.split(' | '):
         m = re.fullmatch(r'(\S+) -> msgstr\[(\d+)\] (omit-ok|strict)', call)
         if not m:
@@ -282,6 +292,41 @@ def oracle_plan(shape):
             return 'msgstr[%d] compared against msgid although it is selected for n in %r' % (i, sel[:6])
         if m.group(1) not in ('msgid', 'msgid_plural'):
             return 'unexpected source ' + call
+    return None
+
+
+def oracle_omit(payload):
+    """check_args with the omission flag on (the form serves a single n): a missing named argument is forgiven only if it is
+    the ONLY missing one and an integer everywhere in the source; everything else is reported as without the flag"""
+    kind, src, dst = payload
+    if kind not in ('python', 'python-brace'):
+        return None
+    sf = parse_or_none(kind, src)
+    df = parse_or_none(kind, dst)
+    if sf is None or df is None:
+        return None
+    import polib
+    chk = _checker()
+    kc = chk._message_format_checkers[kind]
+    try:
+        kc.check_args(polib.POEntry(msgid=src, msgstr=dst), 'msgid', sf, 'msgstr', df, omitted_int_conv_ok=True)
+    except Exception as e:  # noqa
+        return 'check_args raised ' + type(e).__name__
+    got = canon_arg_tags(chk.recorded)
+    rep = [] if got == 'none' else [t.split(' ', 1) for t in got.split(' | ')]
+    reported_missing = sorted(t[1] for t in rep if t[0] == 'missing')
+    if kind == 'python':
+        sm, dm = sf.map_arguments, df.map_arguments
+        is_int = lambda k: all(a.type == 'int' for a in sm[k])          # noqa: E731
+    else:
+        sm, dm = sf.argument_map, df.argument_map
+        is_int = lambda k: all('int' in a.types for a in sm[k])        # noqa: E731
+    missing = [k for k in sm if k not in dm]
+    if len(missing) == 1 and is_int(missing[0]):
+        missing = []
+    want = sorted(enc_key(k) for k in missing)
+    if want != reported_missing:
+        return 'missing arguments reported %r, expected %r (one dropped integer argument is tolerated, nothing more)' % (reported_missing, want)
     return None
 
 
@@ -388,6 +433,10 @@ def check(ctx):
             two = '{%s%s} and {%s%s}' % (k, s2, k, s3)
             pairs.append(('python-brace', one, two))
             pairs.append(('python-brace', two, one))
+    # several integers dropped at once, next to a kept argument
+    pairs += [('python', '%(a)d %(b)d %(c)s', '%(c)s'), ('python', '%(a)d %(b)d', 'x'), ('python', '%(a)d %(b)s %(c)d', '%(b)s'), ('python', '%(a)d %(a)s', 'x'),
+              ('python-brace', '{a:d} {b:d} {c}', '{c}'), ('python-brace', '{a:d} {b:d}', 'x'), ('python-brace', '{0:d} {1:d} {2}', '{2}'), ('python-brace', '{a:d} {a:s}', 'x'),
+              ('python', '%(a)d %(c)s', '%(c)s'), ('python-brace', '{a:d} {c}', '{c}')]
     payloads = []
     for (kind, src, dst) in pairs:
         for omit in (False, True):
@@ -417,6 +466,11 @@ def check(ctx):
             ctx.fail('check-message-crash', {'shape': {k: (v if k != 'preimage' else str(v)[:80]) for k, v in sh.items()}}, r)
         elif m != r:
             ctx.disagree('plan_message', {'shape': {k: (v if k != 'preimage' else str(v)[:80]) for k, v in sh.items()}}, m, r)
+    overd = common.pmap('harness.c14', 'oracle_omit', sorted(set(pairs)))
+    ctx.evaluations += len(overd)
+    for p, v in zip(sorted(set(pairs)), overd):
+        if isinstance(v, str) and v != 'timeout':
+            ctx.fail('omission-rule', {'kind': p[0], 'msgid': p[1], 'msgstr': p[2], 'omitted_int_conv_ok': True}, v)
     verdicts = common.pmap('harness.c14', 'oracle_plan', shapes)
     for sh, v in zip(shapes, verdicts):
         if v is not None:
